@@ -73,7 +73,8 @@ func call(target int, fields modbus.Fields) (reqs []modbus.BuilderRequest, err e
 			pan = fmt.Sprint(rec)
 		}
 	}()
-	b := modbus.NewRequestBuilder("", 0).AddAll(fields)
+	// the builder's own default target differs from every field's: AddAll is documented not to apply it
+	b := modbus.NewRequestBuilder("dflt:9", 9).AddAll(fields)
 	switch target {
 	case 0:
 		reqs, err = b.ReadCoilsTCP()
@@ -281,7 +282,7 @@ func evalSequence(fs []F, order []int, res *ev.Result, lc *local) {
 	for i, f := range fs {
 		fields[i] = f.field(i)
 	}
-	shared := modbus.NewRequestBuilder("", 0).AddAll(fields)
+	shared := modbus.NewRequestBuilder("dflt:9", 9).AddAll(fields)
 	for step, t := range order {
 		fresh, ferr, fpan := call(t, append(modbus.Fields(nil), fields...))
 		got, gerr, gpan := callOn(shared, t)
@@ -292,6 +293,30 @@ func evalSequence(fs []F, order []int, res *ev.Result, lc *local) {
 				Case: Case{Target: t, Fields: fs, Sequence: order}})
 			return
 		}
+	}
+}
+
+// evalGrow: Read*, then AddAll of more fields, then Read* again - the second call must return what a fresh builder
+// holding all the fields returns.
+func evalGrow(first, more []F, t1, t2 int, res *ev.Result, lc *local) {
+	lc.evals++
+	mkf := func(fs []F, off int) modbus.Fields {
+		out := make(modbus.Fields, len(fs))
+		for i, f := range fs {
+			out[i] = f.field(off + i)
+		}
+		return out
+	}
+	b := modbus.NewRequestBuilder("dflt:9", 9).AddAll(mkf(first, 0))
+	callOn(b, t1)
+	b.AddAll(mkf(more, len(first)))
+	got, gerr, gpan := callOn(b, t2)
+	all := append(append([]F(nil), first...), more...)
+	fresh, ferr, fpan := call(t2, mkf(all, 0))
+	if gpan != fpan || (gerr == nil) != (ferr == nil) || (ferr == nil && canon(got) != canon(fresh)) {
+		res.Violate(ev.Violation{Check: "batch", Kind: "depends-on-earlier-calls", Attrs: map[string]any{"step": "grow"},
+			Msg:  fmt.Sprintf("builder with fields %+v, Read (target %d), AddAll %+v, Read (target %d): returned %s (err %v, panic %q); a fresh builder with all the fields returns %s (err %v)", first, t1, more, t2, canon(got), gerr, gpan, canon(fresh), ferr),
+			Case: Case{Target: t2, Fields: all, Sequence: []int{t1, t2}}})
 	}
 }
 
@@ -362,6 +387,27 @@ func run(tier string, shard, nsh int, res *ev.Result) {
 		for _, m := range mixed {
 			for _, o := range orders {
 				evalSequence(m, o, res, lc)
+			}
+		}
+		// fields added after a first Read* call must be part of the next one
+		for _, m := range mixed {
+			for cut := 1; cut < len(m); cut++ {
+				for _, o := range [][2]int{{0, 0}, {4, 4}, {0, 4}, {4, 0}, {5, 6}} {
+					evalGrow(m[:cut], m[cut:], o[0], o[1], res, lc)
+				}
+			}
+		}
+		// same-address fields that are not neighbours in the list
+		for _, t1 := range []uint8{5, 9, 1, 13} {
+			for _, t2 := range []uint8{5, 9, 1, 13} {
+				for tgt := 4; tgt < 8; tgt++ {
+					x := F{"A", 1, 10, t1, 9, 3}
+					y := F{"A", 1, 12, 7, 0, 0}
+					z := F{"A", 1, 10, t2, 2, 4}
+					eval(Case{Target: tgt, Fields: []F{x, y, z}}, res, lc)
+					y.Server, y.Addr = "B", 10
+					eval(Case{Target: tgt, Fields: []F{x, y, z}}, res, lc)
+				}
 			}
 		}
 	})
